@@ -44,11 +44,8 @@ K("vd.fill_order_16", ["C17", "C01", "C02"], "jxl-vardct", VHP, VHPM, "fill_orde
   "the compile-time table")
 K("vd.fill_order_32", ["C17", "C01", "C02"], "jxl-vardct", VHP, VHPM, "fill_order_32x8_32x16_32x32",
   "bounded:layouts 32x8, 32x16, 32x32", ["fill_natural_order"], "same contract as vd.fill_order_16", tier="thorough", timeout=900)
-K("vd.lazy_order_128x64", ["C02", "C01", "C17"], "jxl-vardct", VHP, VHPM, "lazy_order_128x64",
-  "bounded:order id 10 (128x64, the smallest lazily built order); complete over the entry index",
-  ["natural_order_lazy", "fill_natural_order"],
-  "the `static mut` table initialised under Once has 8192 initialised entries forming the natural order; a second call returns the same table",
-  tier="thorough", timeout=1200)
+# (hf_pass.rs harness lazy_order_128x64 -- natural_order_lazy for a lazily built order, `static mut` + Once -- is kept in the module but NOT
+#  registered: 8192-entry Vec::resize + fill under CBMC exceeds 14 GB; the lazily built orders 9..=12 stay unverified)
 K("vd.order_fits_varblock", ["C01", "C02", "C17"], "jxl-vardct", VHP, VHPM, "order_fits_varblock",
   "bounded:coordinates checked for order ids 0..=8 (transforms up to 64x64); sizes / ids for all 27 transforms",
   ["TransformType::order_id", "TransformType::dct_select_size", "TransformType::need_transpose", "natural_order_lazy", "BLOCK_SIZES"],
@@ -71,26 +68,24 @@ K("vd.block_info_occupied", ["C01", "C17"], "jxl-vardct", VHM, VHMM, "block_info
 # jxl-jbr, part 2 (extends the modules of 60_jbr.py; same crate_attrs / canary)
 # ------------------------------------------------------------------------------------------------
 # ---- lib.rs -------------------------------------------------------------------------------------
+_ENOUGH = (" [ASSUMED, as in toc.*: Bitstream::read_bits replaced by its own body with the end-of-data Err pruned (peek_bits + skip_bits); the "
+           "end-of-data outcome is not covered]")
 _J("jb2.scan_info_parse", ["C17", "C01"], JLB, JLBM, "scan_info_parse_contract", "complete",
    ["ScanInfo::parse", "ScanComponentInfo::parse", "ScanInfo::num_comps"],
-   "for every input of 0..=7 bytes: Ok iff the bundle is complete; num_comps = u(2) + 1 entries, Ss = u(6), Se = u(6), Al = u(4), Ah = u(4), "
+   "for every complete input (24 symbolic bytes; the bundle has <= 51 bits): Ok; num_comps = u(2) + 1 entries, Ss = u(6), Se = u(6), Al = u(4), Ah = u(4), "
    "per component comp_idx / ac_tbl_idx / dc_tbl_idx = u(2) each (table selectors <= 3), last_needed_pass = U32(0, 1, 2, 3 + u(3)); exactly "
-   "those bits consumed; Err is unexpected-eof")
+   "those bits consumed" + _ENOUGH)
 _J("jb2.scan_info_spectral_range", ["C01", "C17"], JLB, JLBM, "scan_info_spectral_range_pre", "complete", ["ScanInfo::parse"],
    "consumer precondition: process_scan (scan.rs:400-401, 479-480) computes Vec::with_capacity(Se + 1 - Ss.max(1)) and slices "
-   "DCT8_NATURAL_ORDER[Ss.max(1) .. Se + 1]; the parser must therefore never return Ss > Se + 1 (T.81 B.2.3: Ss <= Se), for every 7-byte input")
+   "DCT8_NATURAL_ORDER[Ss.max(1) .. Se + 1]; the parser must therefore never return Ss > Se + 1 (T.81 B.2.3: Ss <= Se), for every input" + _ENOUGH)
 _J("jb2.scan_info_comp_idx", ["C01", "C17"], JLB, JLBM, "scan_info_comp_idx_pre", "complete", ["ScanInfo::parse", "ScanComponentInfo::parse"],
    "consumer precondition: the SOS writer indexes header.components and a [u32; 3] sampling table (reconstruct.rs:537, 556, 560) and "
-   "process_scan a 3-entry permutation (scan.rs:443) with comp_idx; the parser must therefore never return comp_idx 3, for every 7-byte input")
-_SMI_STUBS = (" [RandomState::new replaced by fixed keys and DefaultHasher::write / finish by a constant hash (the observable set / map does not "
-              "depend on hash values); the real hashbrown table runs]")
-for _rp, _ez in ((2, 1), (1, 2)):
-    _J("jb2.scan_more_info_rp%d_ez%d" % (_rp, _ez), ["C17", "C01"], JLB, JLBM, "scan_more_info_parse_rp%d_ez%d" % (_rp, _ez),
-       "bounded:<= %d reset points and <= %d extra-zero-run entries (complete over their values; the bundle fits in 16 bytes)" % (_rp, _ez),
-       ["ScanMoreInfo::parse", "ExtraZeroRun::parse"],
-       "both lists are delta coded: index_0 = delta_0, index_k = index_(k-1) + delta_k + 1 with delta = U32(0, 1 + u(3), 9 + u(5), 41 + u(28)); "
-       "reset_points == the set of indices; extra_zero_runs == the map index_k -> num_runs_k = U32(1, 2 + u(2), 5 + u(4), 20 + u(8)); an index "
-       "above 3 * 2^26 is a validation error; exactly the bundle's bits are consumed" + _SMI_STUBS, tier="thorough", timeout=1200)
+   "process_scan a 3-entry permutation (scan.rs:443) with comp_idx; the parser must therefore never return comp_idx 3, for every input" + _ENOUGH)
+_J("jb2.extra_zero_run_parse", ["C17", "C01"], JLB, JLBM, "extra_zero_run_parse_contract", "complete", ["ExtraZeroRun::parse"],
+   "for every complete input: num_runs = U32(1, 2 + u(2), 5 + u(4), 20 + u(8)) in 1..=275 read first, block-index delta = "
+   "U32(0, 1 + u(3), 9 + u(5), 41 + u(28)) read second; exactly those bits consumed" + _ENOUGH)
+# (lib.rs harnesses scan_more_info_parse_rp2_ez1 / _rp1_ez2 -- the delta decoding of reset_points / extra_zero_runs in ScanMoreInfo::parse --
+#  are kept in the module but NOT registered: HashSet / HashMap do not go through CBMC, see the comment there)
 
 # ---- reconstruct/scan.rs ------------------------------------------------------------------------
 _J("jb2.first_pass_eobrun", ["C17", "C01"], JSC, JSCM, "progressive_first_eobrun_contract",
@@ -99,17 +94,16 @@ _J("jb2.first_pass_eobrun", ["C17", "C01"], JSC, JSCM, "progressive_first_eobrun
    "T.81 Figure G.3: an all-zero band adds 1 to EOBRUN and writes nothing; when the run reaches 32767 it is coded at once (EOB14 + 14 one-bits) "
    "and reset, so 0 <= EOBRUN <= 32766 between blocks; an empty band (DC scan) leaves the run alone" + _SC_STUBS + _HF_STUBS,
    tier="thorough", timeout=1200)
-_J("jb2.refinement_eob", ["C17", "C01"], JSC, JSCM, "progressive_refinement_eob_contract",
-   "bounded:bands [], [0], [2], [3, 0], [0, -3], [2, 3] (no newly-nonzero coefficient); every EOBRUN 0..=32766 and <= 1 earlier buffered "
-   "correction-bit entry of <= 10 bits on entry",
-   ["process_progressive_refinement", "ScanState::emit_eobrun", "ScanState::buffer_refinement_bits"],
-   "T.81 Figure G.7 (executable transcription): the block joins the run iff a zero run OR correction bits are pending at the end of the band "
-   "(bands [2], [2, 3] have no zero); its correction bits (bit 0 of every already-nonzero coefficient, band order) are appended to the buffer; "
-   "at 32767: EOB14 + 14 one-bits + all buffered bits, run and buffer reset; otherwise nothing is written" + _SC_STUBS + _HF_STUBS,
-   tier="thorough", timeout=1200)
-_J("jb2.refinement_newly_nonzero", ["C17", "C01"], JSC, JSCM, "progressive_refinement_newly_nonzero_contract",
-   "bounded:bands [1], [0, -1], [-2, 1], [1, 0], [-1, 2], [0, 0, 1]; every EOBRUN 0..=32766 and <= 1 earlier buffered entry on entry",
-   ["process_progressive_refinement", "ScanState::emit_eobrun", "ScanState::buffer_refinement_bits"],
-   "T.81 Figure G.7: the pending run (with its buffered bits) is coded BEFORE the newly-nonzero coefficient, then code(run << 4 | 1), sign bit "
-   "(1 = positive), the correction bits skipped over; a band ending in the coded coefficient starts no run, a tail after it does"
-   + _SC_STUBS + _HF_STUBS, tier="thorough", timeout=1200)
+for _h, _band, _what in (
+        ("z", "[0]", "zero run pending -> joins the run, an empty correction-bit entry is buffered"),
+        ("n", "[2]", "NO zero, one correction bit pending -> still joins the run (the `R > 0 or BR > 0` rule), the bit is buffered"),
+        ("p", "[1]", "newly nonzero +1 alone: pending run coded first, code(0 << 4 | 1), sign 1; no new run"),
+        ("np", "[-2, 1]", "an already-nonzero coefficient is skipped: run 0, its correction bit follows the sign bit"),
+        ("mn", "[-1, 2]", "tail after the coded coefficient: its correction bit starts a new run of 1")):
+    _J("jb2.refinement_band_%s" % _h, ["C17", "C01"], JSC, JSCM, "refinement_band_%s" % _h,
+       "bounded:band %s (concrete); one 5-bit code table built by the real build(); every EOBRUN 0..=32766 and <= 1 earlier buffered "
+       "correction-bit entry of <= 10 bits on entry" % _band,
+       ["process_progressive_refinement", "ScanState::emit_eobrun", "ScanState::buffer_refinement_bits"],
+       "T.81 Figure G.7 Encode_AC_coefficients_SA (executable transcription spec_refinement): written bit fields, EOBRUN and buffered correction "
+       "bits after the block equal the figure's; at EOBRUN 32767 the run is coded (EOB14 + 14 one-bits + every buffered bit) and reset, so "
+       "0 <= EOBRUN <= 32766 between blocks. This band: " + _what + _SC_STUBS + _HF_STUBS, tier="thorough", timeout=1200)
